@@ -193,7 +193,12 @@ func (r *seqRun) step() bool {
 		}
 		h := r.snaps[w.rng.Intn(len(r.snaps))]
 		name, ok := r.existingName(h)
-		switch w.rng.Intn(3) {
+		switch w.rng.Intn(4) {
+		case 3:
+			if !ok || h.File == nil {
+				return true
+			}
+			return w.CollWrite(h, name, nil)
 		case 0:
 			if !ok {
 				return true
@@ -319,8 +324,11 @@ func (r *seqRun) step() bool {
 		}
 		ok := w.Obs(d, []string{"api", "peek"}[w.rng.Intn(2)], "C11")
 		if ok && fe > 0 {
-			w.Decode(d.File)
-			w.Compact(d.File)
+			// the running check's own observer looks first (the first
+			// mismatch of a history ends its validation)
+			if w.prop == "C14" {
+				w.Decode(d.File)
+			}
 			f := d.File
 			ok = w.Close(d)
 			if ok {
@@ -328,6 +336,10 @@ func (r *seqRun) step() bool {
 					ok = w.Obs(h, "api", "C11") && w.Close(h)
 				}
 			}
+			if w.prop != "C14" {
+				w.Decode(f)
+			}
+			w.Compact(f)
 		} else if ok {
 			ok = w.Close(d)
 		}
@@ -391,8 +403,10 @@ func runHistory(w *World, cfg seqCfg) bool {
 		if !w.Flush(r.main, nil) {
 			return false
 		}
-		w.Decode(r.main.File)
 		f := r.main.File
+		if w.prop == "C14" || w.prop == "C13" {
+			w.Decode(f)
+		}
 		if !w.Close(r.main) {
 			return false
 		}
@@ -400,6 +414,9 @@ func runHistory(w *World, cfg seqCfg) bool {
 			if !w.Obs(h, "peek", "C02") || !w.Obs(h, "api", "C02") {
 				return false
 			}
+		}
+		if !(w.prop == "C14" || w.prop == "C13") {
+			w.Decode(f)
 		}
 	}
 	for _, id := range w.storeIDs() {
